@@ -13,12 +13,15 @@ C04 driver. Line kinds:
         seg = <b>:<off>:<n>; segs = `-` or seg+seg+…; array = kvs over the whole capacity; spare = cells of the spare
         capacity of the option/link slices handed to the SDK that were written (0 expected)
         (caller scripts: Caller.lean / Alias.lean; zz_verif_c04_alias_test.go)
+  lims <gen> <8 env tokens: `-` or x<hex>> <opts|-> => <attrCount> <valueLen> <eventCount> <linkCount> <perEvent> <perLink>
+        opts = c:<6 ints>|r:<6 ints> joined by `+` (WithSpanLimits / WithRawSpanLimits, in order; LimitsEnv.lean)
   events = `-` or `<hex name>~<kvs>~<dropped>+…`; links = `-` or `<tid>:<sid>:<ts>~<kvs>~<dropped>+…`
 -/
 import Otel.Base.Truncate
 import Otel.C04.Model
 import Otel.C04.Spec
 import Otel.C04.Alias
+import Otel.C04.LimitsEnv
 open Otel Otel.Wire Otel.Utf8 Otel.C04
 
 namespace Otel.C04.Drv
@@ -281,6 +284,38 @@ def spanbLine (ls : List String) (name0 caps0 : String) (rest obs : List String)
          model := if agree && ok then "="
            else s!"{wantEnds} {renderSnap mAtEnd} ## {renderSnap mFinal} ## {" ".intercalate (fin.bufs.map renderKVs)} 0" }
 
+def parseEnvTok (s : String) : Option Bytes := if s == "-" then some [] else parseHex s
+
+def parseLims6 (s : String) : Option Limits :=
+  match (s.splitOn ",").mapM String.toInt? with
+  | some [a, b, c, d, e, f] => some ⟨a, b, c, d, e, f⟩
+  | _ => none
+
+def parseLOpt (s : String) : Option LOpt :=
+  match s.splitOn ":" with
+  | ["c", l] => (parseLims6 l).map .cooked
+  | ["r", l] => (parseLims6 l).map .raw
+  | _ => none
+
+def parseLOpts (s : String) : Option (List LOpt) := if s == "-" then some [] else (s.splitOn "+").mapM parseLOpt
+
+def limsLine (envs : List String) (os : String) (obs : List String) : Option Verdict := do
+  let [e1, e2, e3, e4, e5, e6, e7, e8] ← envs.mapM parseEnvTok | none
+  let env : LimEnv := ⟨e1, e2, e3, e4, e5, e6, e7, e8⟩
+  let opts ← parseLOpts os
+  let [a, b, c, d, e, f] ← obs.mapM String.toInt? | none
+  let observed : Limits := ⟨a, b, c, d, e, f⟩
+  let m := providerSpanLimits env opts
+  let src (v : Bytes) : String := if v.isEmpty then "unset" else if (atoi v).isSome then "int" else "bad"
+  let tags := match opts.getLast? with
+    | some (.raw _) => ["opt-raw"]
+    | some (.cooked l) => ["opt-cooked"] ++ (if cook l != l then ["cooked-defaulted"] else [])
+    | none => ["env", "vl-" ++ src env.spanValueLen ++ "-" ++ src env.valueLen,
+               "ac-" ++ src env.spanAttrCount ++ "-" ++ src env.attrCount, "ec-" ++ src env.eventCount]
+  pure { agree := observed == m, spec := if Spec.providerLimitsOK env opts observed then "ok" else "FAIL",
+         nontrivial := m != defaultLimits, branches := ",".intercalate tags,
+         model := s!"{m.attrCount} {m.valueLen} {m.eventCount} {m.linkCount} {m.perEvent} {m.perLink}" }
+
 end Otel.C04.Drv
 
 open Otel.C04.Drv in
@@ -305,6 +340,7 @@ def stepLine (_ : Unit) (toks : List String) : Unit × Option Verdict :=
     | _, _, _ => ((), none)
   | "span" :: _ :: a :: b :: c :: d :: e :: f :: name0 :: rest, obs =>
     ((), spanLine [a, b, c, d, e, f] name0 rest obs)
+  | ["lims", _, e1, e2, e3, e4, e5, e6, e7, e8, os], obs => ((), limsLine [e1, e2, e3, e4, e5, e6, e7, e8] os obs)
   | "spanb" :: _ :: a :: b :: c :: d :: e :: f :: name0 :: caps0 :: rest, obs =>
     ((), spanbLine [a, b, c, d, e, f] name0 caps0 rest obs)
   | _, _ => ((), none)
